@@ -670,13 +670,13 @@ def sqrt_scalar(ctx, x):
     return s
 
 
-SQRT = z3.Function('sqrt', z3.RealSort(), z3.RealSort())
+SQRT = z3.Function('f_sqrt', z3.RealSort(), z3.RealSort())
 unary('sqrt', sqrt_scalar, dtype=lambda d: 'float' if d in ('int', 'bool') else d, kind='abstract')
 
-COS = z3.Function('cos', z3.RealSort(), z3.RealSort())
-SIN = z3.Function('sin', z3.RealSort(), z3.RealSort())
-EXP = z3.Function('exp', z3.RealSort(), z3.RealSort())
-SINC = z3.Function('sinc', z3.RealSort(), z3.RealSort())
+COS = z3.Function('f_cos', z3.RealSort(), z3.RealSort())
+SIN = z3.Function('f_sin', z3.RealSort(), z3.RealSort())
+EXP = z3.Function('f_exp', z3.RealSort(), z3.RealSort())
+SINC = z3.Function('f_sinc', z3.RealSort(), z3.RealSort())
 
 
 def cos_scalar(ctx, x):
@@ -761,7 +761,7 @@ def op_pow(ctx, a, b):
     return POW(S.zreal(a), S.zreal(b))
 
 
-POW = z3.Function('pow', z3.RealSort(), z3.RealSort(), z3.RealSort())
+POW = z3.Function('f_pow', z3.RealSort(), z3.RealSort(), z3.RealSort())
 
 
 def binary(name, f, dtype=None):
@@ -1005,7 +1005,7 @@ alias('numpy.amin', 'numpy.min')
 alias('method:ndarray.min', 'numpy.min')
 
 
-def _quant(ctx, a, axis, kind):
+def _quant(ctx, a, axis, kind, named=False):
     """np.any / np.all.  Concrete extents are expanded, symbolic ones become quantifiers."""
     a = arr(ctx, a)
     snap = a.snapshot()
@@ -1019,13 +1019,25 @@ def _quant(ctx, a, axis, kind):
         k = z3.Int(ctx._name('q'))
         b = S.z(body(k))
         rng = z3.And(k >= 0, k < n)
-        return z3.ForAll([k], z3.Implies(rng, b)) if kind == 'all' else z3.Exists([k], z3.And(rng, b))
+        qf = z3.ForAll([k], z3.Implies(rng, b)) if kind == 'all' else z3.Exists([k], z3.And(rng, b))
+        if True:
+            return qf
+        # name the quantified fact: the explorer branches on the name, the prover gets the definition
+        # (only for eagerly evaluated whole-array reductions: no enclosing bound variables)
+        name = z3.Bool(ctx._name('np_%s' % kind))
+        ctx.assume(name == qf, axiom=True)
+        return name
     if axis is None:
         def rec(prefix, dims):
             if not dims:
                 return S.truth(snap.at(tuple(prefix)))
             return over(lambda k: rec(prefix + [k], dims[1:]), dims[0])
-        return rec([], list(a.shape))
+        res = rec([], list(a.shape))
+        if named and S.is_z3(res) and z3.is_quantifier(res):
+            name = z3.Bool(ctx._name('np_%s' % kind))
+            ctx.assume(name == res, axiom=True)
+            return name
+        return res
     if axis < 0:
         axis += a.ndim
     n = a.shape[axis]
@@ -1272,3 +1284,19 @@ def np_finfo(ctx, dt):
 
 def install(world):
     world.library.update(LIB)
+
+
+@lib('numpy.isclose')
+def np_isclose(ctx, a, b, rtol=None, atol=None):
+    rtol = S.frac(1e-05) if rtol is None else rtol
+    atol = S.frac(1e-08) if atol is None else atol
+    f = lambda x, y: S.le(S.abs_(S.sub(x, y)), S.add(atol, S.mul(rtol, S.abs_(y))))
+    return A.elementwise(ctx, f, [a, b], dtype='bool')
+
+
+@lib('numpy.allclose')
+def np_allclose(ctx, a, b, rtol=None, atol=None):
+    r = np_isclose(ctx, a, b, rtol, atol)
+    if isinstance(r, Arr):
+        return _quant(ctx, r, None, 'all', named=True)
+    return r
